@@ -39,6 +39,58 @@ Proof.
       split; [reflexivity|]. split; [lia|]. intros i. reflexivity.
 Qed.
 
+(* the line number given to from_line only ends up in the error *)
+Lemma hrec_from_line_ln line ln ln' :
+  hrec_from_line line ln' =
+  match hrec_from_line line ln with
+  | inl r => inl r
+  | inr e => inr (mkerr (etpe e) ln')
+  end.
+Proof.
+  unfold hrec_from_line.
+  repeat match goal with
+         | |- context [if ?b then _ else _] => destruct b
+         | |- context [match ?x with _ => _ end] => destruct x
+         end; reflexivity.
+Qed.
+
+Lemma hrec_from_line_err_line line ln e : hrec_from_line line ln = inr e -> eline e = ln.
+Proof.
+  unfold hrec_from_line. intros E.
+  repeat match type of E with
+         | context [if ?b then _ else _] => destruct b
+         | context [match ?x with _ => _ end] => destruct x
+         end; try discriminate; injection E as <-; reflexivity.
+Qed.
+
+Definition shift_err (d : Z) (e : verr) : verr := mkerr (etpe e) (option_map (fun k => k + d) (eline e)).
+
+(* starting the numbering d later shifts the numbers of the errors by d and
+   changes nothing else *)
+Lemma parse_header_lines_shift_gen lines d : forall n recs errs,
+  parse_header_lines (n + d) lines recs (map (shift_err d) errs) =
+  (fst (parse_header_lines n lines recs errs), map (shift_err d) (snd (parse_header_lines n lines recs errs))).
+Proof.
+  induction lines as [|l lines IH]; intros n recs errs; simpl; [reflexivity|].
+  rewrite (hrec_from_line_ln l (Some (n + 1)) (Some (n + d + 1))).
+  replace (n + d + 1) with (n + 1 + d) by lia.
+  destruct (hrec_from_line l (Some (n + 1))) as [r|e] eqn:E.
+  - destruct (h_contains (hkey r) recs).
+    + rewrite <- IH. rewrite map_app. reflexivity.
+    + apply IH.
+  - rewrite <- IH. rewrite map_app. simpl. unfold shift_err at 3.
+    rewrite (hrec_from_line_err_line _ _ _ E). reflexivity.
+Qed.
+
+Lemma parse_header_lines_shift lines d :
+  exists recs errs, parse_header_lines d lines [] [] = (recs, errs) /\
+    fst (parse_header_lines 0 lines [] []) = recs /\
+    errs = map (shift_err d) (snd (parse_header_lines 0 lines [] [])).
+Proof.
+  pose proof (parse_header_lines_shift_gen lines d 0 [] []) as H. simpl in H.
+  rewrite H. eexists _, _. split; [reflexivity|]. split; reflexivity.
+Qed.
+
 Section Thm.
   Context {C : Type}.
   Variable registry : list (scheme C).
@@ -49,7 +101,7 @@ Section Thm.
   Theorem from_line_reader_spec (lr : linereader) m lg :
     let pre := take_while is_header_line (lr_view lr) in
     let out := header_from_line_reader registry lr m lg in
-    fst out = header_from_lines registry pre m lg /\
+    fst out = header_from_lines_at registry (lr_no lr + 1) pre m lg /\
     lr_no (snd out) = lr_no lr + Z.of_nat (length pre) /\
     (forall i, nth i (lr_view (snd out)) [] = nth (length pre + i) (lr_view lr) []).
   Proof.
@@ -58,6 +110,13 @@ Section Thm.
     destruct (lr_take_pragmas (lr_line lr) (lr_rest lr) (lr_no lr) []) as [lines lr'].
     cbn [fst snd] in *. destruct H as (H1 & H2 & H3). subst lines. auto.
   Qed.
+
+  (* from_lines is the numbering from 1; numbered from `first`, the records are
+     the same and every pragma-line error is the one from_lines' loop gives for
+     the lines numbered first, first+1, ... *)
+  Lemma header_from_lines_at_one lines m lg :
+    header_from_lines_at registry 1 lines m lg = header_from_lines registry lines m lg.
+  Proof. reflexivity. Qed.
 
   (* peeking is the head of the view; read_line steps over a non-empty line and
      stays put on an empty one (and at the end of the input) *)
